@@ -555,6 +555,32 @@ func (e *Engine) smtText(o *Oblig, extra string, splitCase string) string {
 			b.WriteString("(assert (forall ((s Str) (t Str)) (! (=> (and (= (slen s) (slen t)) (forall ((i Int)) (=> (and (<= 0 i) (< i (slen s))) (= (sat s i) (sat t i))))) (= s t)) :pattern ((slen s) (slen t)))))\n")
 		}
 	}
+	for _, n := range []int{2, 3} {
+		kn := fmt.Sprintf("key!%d", n)
+		if !strings.Contains(body, kn) {
+			found := false
+			for _, sf := range closure {
+				if strings.Contains(sf.decl, kn) || strings.Contains(strings.Join(sf.axioms, " "), kn) {
+					found = true
+				}
+			}
+			if !found {
+				continue
+			}
+		}
+		var sorts, vars, args []string
+		for i := 0; i < n; i++ {
+			sorts = append(sorts, SInt)
+			vars = append(vars, fmt.Sprintf("(k%d Int)", i))
+			args = append(args, fmt.Sprintf("k%d", i))
+		}
+		b.WriteString(fmt.Sprintf("(declare-fun %s (%s) Int)\n", kn, strings.Join(sorts, " ")))
+		for i := 0; i < n; i++ {
+			b.WriteString(fmt.Sprintf("(declare-fun %s.%d (Int) Int)\n", kn, i))
+			b.WriteString(fmt.Sprintf("(assert (forall (%s) (! (= (%s.%d (%s %s)) k%d) :pattern ((%s %s)))))\n",
+				strings.Join(vars, " "), kn, i, kn, strings.Join(args, " "), i, kn, strings.Join(args, " ")))
+		}
+	}
 	// spec functions: declarations first, then definitions in order, then axioms
 	for _, sf := range closure {
 		if strings.HasPrefix(sf.decl, "(declare-") {
@@ -614,4 +640,55 @@ func (e *Engine) smtText(o *Oblig, extra string, splitCase string) string {
 	}
 	b.WriteString("(check-sat)\n")
 	return b.String()
+}
+
+// verifyGlobalInit checks that a global's initializer expression establishes
+// its declared invariants (established-by initializer), and that nothing else
+// assigns it.
+func (e *Engine) verifyGlobalInit(key string, gi *globalInfo) (rep *FuncReport) {
+	rep = &FuncReport{Name: "global:" + key, Props: gi.props, Kind: "global"}
+	c := newCtx(e, gi.pkg, rep.Name, gi.props)
+	defer func() {
+		if r := recover(); r != nil {
+			switch f := r.(type) {
+			case unsupportedErr:
+				rep.Status = "outside-subset"
+				rep.Reason = f.msg
+			case specFailure:
+				rep.Status = "stale-contract"
+				rep.Reason = f.msg
+			default:
+				panic(r)
+			}
+			rep.obls = nil
+		}
+	}()
+	if gi.init == nil {
+		panic(specFailure{"global " + key + " has no initializer"})
+	}
+	x := &Exec{c: c, pkg: gi.pkg, info: gi.pkg.info, sig: types.NewSignatureType(nil, nil, nil, nil, nil, false), loopOrd: new(int)}
+	st := &State{vars: map[types.Object]Val{}, heap: map[string]Val{}, ghost: map[string]Val{}, pc: tTrue}
+	x.entry = st.clone()
+	v, _ := x.eval(gi.init, st)
+	st.vars[gi.obj] = v
+	env := &SpecEnv{x: x, st: st, names: map[string]Val{gi.obj.Name(): v}}
+	c.oblige("unassigned", "", tTrue, boolTerm(!gi.assigned), gi.obj.Pos(), "nothing assigns "+gi.obj.Name()+" after its initializer")
+	for k, inv := range gi.invs {
+		g := env.evalBool(inv.E)
+		for pi, part := range splitConj(g) {
+			c.oblige("global-init", fmt.Sprintf("#%d.%d", k+1, pi+1), tTrue, part, gi.obj.Pos(), inv.Text)
+		}
+	}
+	rep.Status = "generated"
+	rep.obls = c.obls
+	rep.NumObl = len(c.obls)
+	rep.Notes = dedup(c.notes)
+	return rep
+}
+
+func boolTerm(b bool) string {
+	if b {
+		return tTrue
+	}
+	return tFalse
 }
